@@ -234,6 +234,8 @@ class Verdict:
                     "trusted_base": list(TRUSTED_BASE)}
         self.assumptions = []
         self.findings = load_findings()
+        # replays of earlier runs of this property are stale: start from an empty directory
+        shutil.rmtree(os.path.join(VERIF, "replays", pid), ignore_errors=True)
 
     def replay_path(self, name):
         d = os.path.join(VERIF, "replays", self.pid)
@@ -253,6 +255,8 @@ class Verdict:
             msg = "KNOWN-FINDING: property=%s %s [%s]" % (self.pid, k["what"], key)
             if msg not in self.known_hits:
                 self.known_hits.append(msg)
+            return
+        if any(k0 == key for _, _, k0 in self.violations):
             return
         name = hashlib.sha1(key.encode()).hexdigest()[:12] + ".json"
         path = self.replay_path(name)
